@@ -54,7 +54,14 @@ func runCombReal(c *CombCase) (o *combObs) {
 		} else {
 			o.States = append(o.States, "pending")
 		}
-		o.Log = append([]string{}, m.Log...)
+		o.Log = o.Log[:0]
+		for _, l := range m.Log {
+			// the model's CatchError carries no tag (the executor has one shared closure): drop it
+			if parts := strings.SplitN(l, ":", 3); len(parts) == 3 && parts[0] == "catch" {
+				l = "catch:" + parts[2]
+			}
+			o.Log = append(o.Log, l)
+		}
 	}
 	st()
 	for _, s := range c.Script {
@@ -416,6 +423,11 @@ func (h *harness) checkComb(c *CombCase, source string) {
 		return
 	}
 	want := class + ":" + cat
+	h.failed["comb:"+want]++
+	if h.failed["comb:"+want] > 3 {
+		h.run.Violate(class, fmt.Sprintf("combinator level, %s: %s", cat, what), "", class == "correspondence", nil)
+		return
+	}
 	cur := c
 	for steps := 0; steps < 300; steps++ {
 		progressed := false
